@@ -14,7 +14,8 @@ PASS_BUDGET = 200
 
 
 @st.composite
-def mlmc_case(draw, tier, with_cv=True, modes=("adaptive", "adaptive", "adaptive", "fixed"), low_levels=False):
+def mlmc_case(draw, tier, with_cv=True, modes=("adaptive", "adaptive", "adaptive", "fixed"), low_levels=False,
+              path_dependent=False):
     law = {"seed": draw(st.integers(1, 10 ** 6)), "base": draw(_f(-1.0, 1.0)), "s_base": draw(_f(0.1, 2.0)),
            "m0": draw(_f(0.01, 1.0)), "alpha": draw(_f(0.5, 2.0)), "s0": draw(_f(0.05, 1.0)),
            "beta": draw(_f(0.5, 3.0)), "cost0": 1.0, "gamma": draw(_f(0.0, 2.0)), "maturity": draw(_f(0.1, 2.0))}
@@ -30,10 +31,15 @@ def mlmc_case(draw, tier, with_cv=True, modes=("adaptive", "adaptive", "adaptive
             "maximum_level": draw(st.integers(l0, 8)) if mode == "adaptive" else draw(st.integers(l0, 6)),
             "n0": draw(st.integers(2, 40)), "rmse_rel": draw(_f(0.03, 0.5)),
             "rates": draw(st.sampled_from(["given", "regressed", "mixed"])),
-            "df": draw(_f(0.5, 1.0)), "notional": draw(st.sampled_from([1.0, 0.01, 250.0])),
+            "df": draw(_f(0.5, 1.0)), "notional": draw(st.sampled_from([1.0, 0.01, 250.0, 1.0, 1e-6, 1e-9])),
             "strike": draw(_f(-1.0, 1.0)), "payoff": draw(st.sampled_from(["forward", "call", "put"])),
             "controls": draw(st.lists(st.tuples(_f(-1.0, 1.0), _f(-1.0, 1.0)), max_size=2)) if with_cv else []}
     case["rmse"] = float(f"{case['rmse_rel'] * case['notional'] * case['df'] * law['s_base']:.6g}")
+    if path_dependent and draw(st.integers(0, 3)) == 0:
+        # a down-and-out call: the paths get an intermediate date; the barrier lies below the start value 0
+        law["mid"] = True
+        case["payoff"] = "barrier"
+        case["barrier"] = float(f"{min(law['base'] - draw(_f(0.2, 1.2)) * law['s_base'], -0.05):.6g}")
     if low_levels:
         flavour = draw(st.sampled_from(["plain"] * 5 + ["quiet", "identical-top-level"]))
         if flavour == "quiet":
@@ -63,9 +69,14 @@ def build_engine(case, ledger_key, mode="hash", seed=None, nb_of_processes=1, sp
 
     law = case["law"]
     cp = ScriptedCoupling(ledger_key, law, df=case["df"], mode=mode, max_samples=case.get("max_samples", 30000),
-                          zero_cost_levels=case.get("zero_cost_levels", ()))
+                          zero_cost_levels=case.get("zero_cost_levels", ()), max_level=int(case["maximum_level"]) + 3)
     if case["payoff"] == "forward":
         payoff = Forward(strike=case["strike"])
+    elif case["payoff"] == "barrier":
+        from rpylib.product.payoff import Barrier, BarrierType
+
+        payoff = Barrier(strike=case["strike"], payoff_type=PayoffType.CALL, barrier_type=BarrierType.DOWN_AND_OUT,
+                         barrier=case["barrier"])
     else:
         payoff = Vanilla(strike=case["strike"], payoff_type=PayoffType.CALL if case["payoff"] == "call" else PayoffType.PUT)
     product = Product(payoff_underlying=Spot(), payoff=payoff, maturity=law["maturity"], notional=case["notional"])
